@@ -7,7 +7,7 @@
 (* slopes s1 # s2 multiples of 1/8 in [-8, 8], dyadic offset.  Heights are *)
 (* carried scaled by 8 (y8 = 8*y) so that everything is an integer.        *)
 (***************************************************************************)
-EXTENDS ElbowDefs, SequencesExt, TLC, Json
+EXTENDS ElbowDefs, KneedleDefs, SequencesExt, TLC, Json
 
 CONSTANTS ArmMin, ArmMax, Thorough, Emit
 
@@ -42,4 +42,7 @@ Next == Emit1
 Spec == Init /\ [][Next]_c
 
 Lemmas == IsElbow(c.pts, c.a + 1)
+\* "the difference curve of the normalised elbow peaks at the corner": Kneedle without smoothing, as defined in
+\* KneedleDefs, returns the corner on every monotone member
+KneedleLemma == Monotone(c.pts) => KneedleKnee(c.pts) = c.a
 =============================================================================
